@@ -59,6 +59,8 @@ func main() {
 """
 
 SEED_FLAG = "-seed=QzA4IHZlcmlmIHNlZWQh"
+JVM_SMALL = ("-Xmx4g", "-XX:ParallelGCThreads=4")
+JVM_BIG = ("-Xmx12g", "-XX:ParallelGCThreads=8")
 
 
 # --------------------------------------------------------------------------- TLC output
@@ -127,12 +129,13 @@ def run_shapes(chk, sb, batch: ShapeBatch, vulnerable: dict, n_builds: int, orde
     # ---- (i) in-process driver with controlled orders
     mismatches = []
     driver_leads = {}
+    agree = 0
 
     def one_order(j):
         order = []
         per_shape = {}
         for idx, sh in batch.shapes:
-            row = sh["fixed"][j % len(sh["fixed"])]
+            row = sh["by_pi"][j % sh["nperms"]]
             per_shape[idx] = row
             order += [shape_func(idx, f) for f in row["order"]]
         rr = sb.garble(["verif", "reflect", "-order=list:" + ",".join(order), "."], cwd=src, timeout=600)
@@ -163,7 +166,9 @@ def run_shapes(chk, sb, batch: ShapeBatch, vulnerable: dict, n_builds: int, orde
             chk.case(["driver", sh["id"], row["order"]],
                      sample={"shape": sh["id"], "order": row["order"], "real_names": sorted(real_names), "spec_names": sorted(exp_names), "passes": passes}
                      if (exp_names != set(sh["lfp_names"]) and len(chk.samples) < 3) else None)
-            if real_names != exp_names or real_apis != exp_apis:
+            if real_names == exp_names and real_apis == exp_apis:
+                agree += 1
+            else:
                 mismatches.append({"batch": batch.name, "order": j, "shape": sh["id"], "perm": row["order"],
                                    "spec": {"names": sorted(exp_names), "apis": exp_apis}, "real": {"names": sorted(real_names), "apis": real_apis}})
             if real_names != set(sh["lfp_names"]):
@@ -214,7 +219,7 @@ def run_shapes(chk, sb, batch: ShapeBatch, vulnerable: dict, n_builds: int, orde
                            "cmd.txt": f"garble build . (build {k} of {n_builds}; the failure depends on Go's map iteration order, repeat the build)\n"},
                           what=f"shape {sh['id']}: types {lost} lose their names in the garbled binary "
                                f"(plain {pl!r} garbled {gl!r})")
-    return {"mismatches": mismatches, "driver_leads": driver_leads, "seen_loss": seen_loss, "builds": n_builds}
+    return {"mismatches": mismatches, "driver_leads": driver_leads, "seen_loss": seen_loss, "builds": n_builds, "agree": agree}
 
 
 # --------------------------------------------------------------------------- cells
@@ -277,7 +282,7 @@ def ask(garble, sub, reqs):
     return outs
 
 
-def run_replacer(chk, garble, table: dict, n_random: int):
+def run_replacer(chk, garble, table: dict, n_random: int, label: str):
     reqs, expect = [], []
     for row in table["rows"]:
         for v, vals in enumerate(table["values"]):
@@ -308,7 +313,7 @@ def run_replacer(chk, garble, table: dict, n_random: int):
             if spec_bugs <= 3:
                 print(f"MODEL-MISMATCH: property={PID} Replacer.tla row {rq} says {exp!r}, strings.NewReplacer gives {ref!r}", flush=True)
         got = real[i].get("out")
-        chk.case(["replacer", fam, len(rq["pairs"]) // 2, len(rq["input"])] if fam == "realistic" else ["replacer", i],
+        chk.case(["replacer", fam, len(rq["pairs"]) // 2, len(rq["input"])] if fam == "realistic" else ["replacer", label, i],
                  sample={"pairs": rq["pairs"], "input": rq["input"], "out": got} if i in (n_table // 2, n_table + 1) else None)
         if got != ref:
             bad += 1
@@ -317,9 +322,9 @@ def run_replacer(chk, garble, table: dict, n_random: int):
                               {"request.json": json.dumps(rq), "real.json": json.dumps(real[i]), "expected.txt": ref,
                                "cmd.txt": "garble verif replacer < request.json"},
                               what=f"injected replacer gives {got!r}, strings.NewReplacer gives {ref!r} for {rq}")
-    chk.extra["replacer_table_rows"] = n_table
-    chk.extra["replacer_random_cases"] = n_random
-    chk.extra["replacer_mismatches"] = bad
+    chk.extra["replacer_table_rows_" + label] = n_table
+    chk.extra["replacer_random_cases_" + label] = n_random
+    chk.extra["replacer_mismatches_" + label] = bad
     if spec_bugs:
         raise Inconclusive(f"{spec_bugs} rows of the Replacer.tla table disagree with strings.NewReplacer: fix the spec")
 
@@ -381,38 +386,47 @@ def main(tier, seed):
 
     work_r = mkscratch("c08-tlc-reflect")
     work_p = mkscratch("c08-tlc-replacer")
-    th_leads = tlc_job("leads", lambda: tlc("Reflect", "Reflect-leads.cfg", workers=2, timeout=900))
-    th_repl = tlc_job("replacer", lambda: tlc_must_pass("Replacer", f"Replacer-{tier}.cfg", workdir=work_p, workers=4, timeout=2400))
-    r = tlc_must_pass("Reflect", "Reflect-quick.cfg", workdir=work_r, workers=4, timeout=1800)
-    chk.add_tlc(r)
-    phase(f"Reflect.tla checked: {r.distinct} distinct states")
-    table = json.loads((work_r / "reflect_table.json").read_text())
-    loss = parse_loss_lines(r.out)
-    shapes = list(enumerate(table["shapes"], start=1))
-    n_hand = len(shapes)
-    gen_summary = {}
+    th_leads = tlc_job("leads", lambda: tlc("Reflect", "Reflect-leads.cfg", workers=2, timeout=900, jvm=JVM_SMALL))
+    th_repl = tlc_job("replacer", lambda: tlc_must_pass("Replacer", f"Replacer-{tier}.cfg", workdir=work_p, workers=4, timeout=3000, jvm=JVM_SMALL))
+    th_repl3 = None
     if not quick:
-        # the generated family: TLC explores every order of every family member, the harness samples members
-        rf = tlc_must_pass("Reflect", "Reflect-thorough.cfg", workers="auto", timeout=2400)
+        work_p3 = mkscratch("c08-tlc-replacer3")
+        th_repl3 = tlc_job("replacer3", lambda: tlc_must_pass("Replacer", "Replacer-thorough3.cfg", workdir=work_p3, workers=4, timeout=3000, jvm=JVM_SMALL))
+    gen_summary = {}
+    th_repair = None
+    n_orders = 24 if quick else 120
+    order_ids = sorted(chk.rng.sample(range(120), n_orders))      # permutation j % n! of every shape's functions
+    order_cfg = "OrderIds = {" + ", ".join(map(str, order_ids)) + "}"
+    if quick:
+        cfg = (SPEC / "cfg" / "Reflect-quick.cfg").read_text().replace("OrderIds = {0}", order_cfg)
+        r = tlc_must_pass("Reflect", "Reflect-quick.cfg", workdir=work_r, files={"Reflect-quick.cfg": cfg}, workers=4, timeout=1800, jvm=JVM_SMALL)
+        chk.add_tlc(r)
+        phase(f"Reflect.tla checked: {r.distinct} distinct states")
+        table = json.loads((work_r / "reflect_table.json").read_text())
+        loss = parse_loss_lines(r.out)
+    else:
+        # the hand-written shapes and the generated family (7^5 members): TLC explores every order of every
+        # member; the harness replays all hand-written shapes and a sample of the family
+        rf = tlc_must_pass("Reflect", "Reflect-thorough.cfg", workers=8, timeout=3000, jvm=JVM_BIG)
         chk.add_tlc(rf)
-        floss = parse_loss_lines(rf.out)
+        phase(f"Reflect.tla checked on the generated family: {rf.distinct} distinct states")
+        loss = parse_loss_lines(rf.out)
+        # the proposed repair of F6, checked in the model over the same family (Complete, OrderIndependent)
+        th_repair = tlc_job("repair", lambda: tlc("Reflect", "Reflect-repair.cfg", workers=6, timeout=3000, jvm=JVM_BIG))
         fam = [f"g{n}" for n in range(0, 7 ** 5)]
-        lossy = sorted(k for k in floss if k.startswith("g"))
-        clean = [g for g in fam if g not in floss]
+        lossy = sorted((k for k in loss if k.startswith("g")), key=lambda g: int(g[1:]))
+        clean = [g for g in fam if g not in loss]
         pick = chk.rng.sample(lossy, min(36, len(lossy))) + chk.rng.sample(clean, 36)
         gen_summary = {"family": len(fam), "order_sensitive": len(lossy), "picked": len(pick)}
-        cfg = (SPEC / "cfg" / "Reflect-quick.cfg").read_text()
+        cfg = (SPEC / "cfg" / "Reflect-sample.cfg").read_text()
         cfg = re.sub(r"PickGen = \{\}", "PickGen = {" + ", ".join(p[1:] for p in pick) + "}", cfg)
-        cfg = re.sub(r"EmitLoss = TRUE", "EmitLoss = FALSE", cfg).replace(" LossLine", "")
-        work_s = mkscratch("c08-tlc-sample")
-        rs = tlc_must_pass("Reflect", "Reflect-sample.cfg", workdir=work_s, files={"Reflect-sample.cfg": cfg}, workers=4, timeout=2400)
-        t2 = json.loads((work_s / "reflect_table.json").read_text())
-        shapes = list(enumerate(t2["shapes"], start=1))
-        if [s["id"] for _, s in shapes[:n_hand]] != [s["id"] for s in table["shapes"]]:
-            raise Inconclusive("sample table does not start with the hand-written shapes")
-        for k, v in floss.items():
-            if k.startswith("g"):
-                loss[k] = v
+        cfg = re.sub(r"CellK = \d+", "CellK = 3", cfg).replace("OrderIds = {0}", order_cfg)
+        rs = tlc_must_pass("Reflect", "Reflect-sample.cfg", workdir=work_r, files={"Reflect-sample.cfg": cfg}, workers=4, timeout=3000, jvm=JVM_SMALL)
+        phase("table for the hand-written shapes and the sampled family members emitted")
+        table = json.loads((work_r / "reflect_table.json").read_text())
+    shapes = list(enumerate(table["shapes"], start=1))
+    for _, sh in shapes:
+        sh["by_pi"] = {row["pi"]: row for row in sh["fixed"]}
     vulnerable = {sid: e["lost"] for sid, e in loss.items()}
     chk.extra["tlc_order_sensitive_shapes"] = sorted(s["id"] for _, s in shapes if s["id"] in vulnerable)
     chk.extra["generated_family"] = gen_summary
@@ -435,21 +449,22 @@ def main(tier, seed):
     sb = sbs["default"]
     bsize = 24
     batches = [ShapeBatch(f"batch{b}", shapes[i:i + bsize], chk.rng) for b, i in enumerate(range(0, len(shapes), bsize))]
-    summary = {"mismatches": [], "driver_leads": {}, "seen_loss": {}, "builds": 0}
+    summary = {"mismatches": [], "driver_leads": {}, "seen_loss": {}, "builds": 0, "agree": 0}
     for b, batch in enumerate(batches):
         if quick:
-            n_builds, order_ids = 12, sorted(chk.rng.sample(range(120), 24))
+            n_builds, oids = 12, order_ids
         elif b == 0:
-            n_builds, order_ids = 40, list(range(120))
+            n_builds, oids = 40, order_ids
         else:
-            n_builds, order_ids = 16, sorted(chk.rng.sample(range(120), 30))
-        res = run_shapes(chk, sb, batch, vulnerable, n_builds, order_ids, scratch, tier)
-        phase(f"{batch.name}: {len(order_ids)} driver orders, {n_builds} real builds done")
+            n_builds, oids = 16, sorted(chk.rng.sample(order_ids, 30))
+        res = run_shapes(chk, sb, batch, vulnerable, n_builds, oids, scratch, tier)
+        phase(f"{batch.name}: {len(oids)} driver orders, {n_builds} real builds done")
         summary["mismatches"] += res["mismatches"]
         summary["driver_leads"].update(res["driver_leads"])
         summary["seen_loss"].update(res["seen_loss"])
         summary["builds"] += res["builds"]
-    chk.traces_validated = sum(1 for k in chk.distinct if k.startswith('["driver"')) - len(summary["mismatches"])
+        summary["agree"] += res["agree"]
+    chk.traces_validated = summary["agree"]    # driver runs (shape x order) whose real state equals the spec state
     chk.extra["driver_model_mismatches"] = len(summary["mismatches"])
     chk.extra["driver_order_dependent_shapes"] = sorted(summary["driver_leads"])
     chk.extra["real_builds_with_loss"] = {k: len(v) for k, v in summary["seen_loss"].items()}
@@ -476,6 +491,16 @@ def main(tier, seed):
               f"reproduced on the real code: {repro}", file=sys.stderr, flush=True)
     elif not rl.ok:
         raise Inconclusive(f"Reflect-leads.cfg failed: {rl.error}\n{rl.out[-2000:]}")
+
+    if th_repair is not None:
+        th_repair.join()
+        rr_ = tlc_jobs["repair"]
+        if isinstance(rr_, BaseException):
+            raise rr_
+        chk.extra["repair_model_check"] = {"ok": rr_.ok, "violated": rr_.violated, "distinct_states": rr_.distinct}
+        if rr_.ok:
+            chk.add_tlc(rr_)
+        log(f"proposed F6 repair in the model (Reflect-repair.cfg): ok={rr_.ok} violated={rr_.violated} states={rr_.distinct}")
 
     # ---- layout cells
     cells = table["cells"]
@@ -521,7 +546,15 @@ def main(tier, seed):
     chk.add_tlc(rp)
     phase(f"Replacer.tla checked: {rp.distinct} distinct states")
     rtable = json.loads((work_p / "replacer_table.json").read_text())
-    run_replacer(chk, garble, rtable, 3000 if quick else 40000)
+    run_replacer(chk, garble, rtable, 3000 if quick else 40000, "ab")
+    if th_repl3 is not None:
+        th_repl3.join()
+        rp3 = tlc_jobs["replacer3"]
+        if isinstance(rp3, BaseException):
+            raise rp3
+        chk.add_tlc(rp3)
+        phase(f"Replacer.tla (3 letters) checked: {rp3.distinct} distinct states")
+        run_replacer(chk, garble, json.loads((work_p3 / "replacer_table.json").read_text()), 0, "abc")
 
     phase("replacer rows compared")
     chk.exhaustive = False   # orders of 5-function shapes are sampled in quick; the generated family is sampled in thorough
